@@ -2,7 +2,8 @@
    Model: Model/Handler.v (MultiHandler control logic); [stop true] = the repaired Stop guard,
    [stop false] = the guard as found at the pinned commit.  All theorems hold for an arbitrary shape,
    arbitrary oracles vh/ofp, arbitrary n, arbitrary messages and arbitrary API histories
-   (lists of Accept m | Stop | Drain k, no length bound).
+   (lists of Accept m | Stop | Drain k, no length bound); "arbitrary messages" includes messages on which the round
+   code panics ([m_panic]): [accept] recovers such a panic into a clean abort, [accept_v0] (Accept before that fix) does not.
    Only statements, each closed by [exact] of a lemma proved in Proofs/HandlerProofs.v. *)
 From Coq Require Import List NArith ZArith Bool Arith Lia.
 From MPS Require Import Model.Handler Proofs.HandlerProofs.
@@ -18,6 +19,9 @@ Theorem C17_lifecycle_inv : forall vh ofp self n ssid proto sh s,
 Proof. exact lifecycle_inv. Qed.
 Print Assumptions C17_lifecycle_inv.
 
+(* the invariant covers histories in which the round code panics on messages: the runtime state [Panicked] is not
+   reachable with the recovery in place (above), and IS reachable without it (C17_panic_v0_escapes_refuted below) *)
+
 (* -- once terminal, every further call leaves the state unchanged (Drain only touches h_pending) -- *)
 Theorem C17_terminal_stable_step : forall vh ofp s e,
   terminal s = true ->
@@ -31,6 +35,37 @@ Theorem C17_terminal_stable : forall vh ofp es s,
   same_but_pending s s' /\ terminal s' = true /\ result_class s' = result_class s.
 Proof. exact terminal_stable. Qed.
 Print Assumptions C17_terminal_stable.
+
+(* -- the end reached through a recovered panic of the round code is an end like any other: whatever is called
+   afterwards (any message, Stop, Drain), the answer of Result() stays "panic while processing message", nobody named,
+   the channel stays closed exactly once, nothing panics -- *)
+Theorem C17_panic_contained_stable : forall vh ofp s m es,
+  life_ok s -> h_rt s = Running ->
+  is_panicked (h_rt (accept_v0 vh ofp s m)) = true ->
+  let s1 := accept vh ofp s m in
+  let s2 := run_api true vh ofp s1 es in
+  same_but_pending s1 s2
+  /\ h_rt s2 = Running /\ h_err s2 = Some ([], EPanic) /\ h_res s2 = false /\ result_class s2 = 2 /\ h_closes s2 = 1.
+Proof. exact panic_contained_stable. Qed.
+Print Assumptions C17_panic_contained_stable.
+
+(* -- Accept without the deferred recover (before the fix): the panic escapes, the handler is left crashed in the
+   middle of the session, never closed, Result() still "not finished" -- *)
+Theorem C17_panic_v0_escapes_refuted : forall vh ofp,
+  exists s, reachable_v0rec vh ofp 0 2 7 9 xor_shape s
+            /\ h_rt s = Panicked 3 /\ result_class s = 0 /\ h_closes s = 0.
+Proof. exact panic_v0_escapes_refuted. Qed.
+Print Assumptions C17_panic_v0_escapes_refuted.
+
+(* the same history through Accept as it is *)
+Theorem C17_panic_contained_witness : forall vh ofp,
+  let s := run_api true vh ofp (xor_start vh ofp) [Accept xor_panic_msg] in
+  reachable true vh ofp 0 2 7 9 xor_shape s
+  /\ h_rt s = Running /\ h_err s = Some ([], EPanic) /\ result_class s = 2 /\ h_closes s = 1
+  /\ h_cur s = 2 /\ h_qp s = [(2, 1, xor_panic_msg)]
+  /\ h_out s = [mkOut None 2 false 0%N; mkOut None 0 false 0%N].
+Proof. exact panic_contained_witness. Qed.
+Print Assumptions C17_panic_contained_witness.
 
 (* -- Stop -- *)
 Theorem C17_stop_ends_running : forall vh ofp self n ssid proto sh s,
@@ -133,3 +168,15 @@ Proof.
   - intros r [H1 H2]. cbn in H2. assert (r = 2 \/ r = 3) as [->| ->] by lia; left; reflexivity.
   - cbn [peers_one_ahead ex_honest]. repeat split; vm_compute; lia.
 Qed.
+
+(* a history with messages the round code panics on (a queued one and a current one), Stop and Drain: the lifecycle
+   invariant in concrete numbers, before and after *)
+Example C17_ex_history_with_panics :
+  let es := [Accept (ex_bx 1 3 102 PanicVerify); Accept (ex_b 1 2 0 true); Drain 1;
+             Accept (ex_px 1 2 0 PanicVerify);                  (* <- the round code panics here *)
+             Accept (ex_p 2 2 0 true); Stop; Accept (ex_bx 2 2 0 PanicFinalize); Drain 5] in
+  let s := run_api true ex_vh ex_ofp ex_start es in
+  reachable true ex_vh ex_ofp 0 3 7 9 ex_shape s
+  /\ h_closes s = 1 /\ terminal s = true /\ h_res s = false /\ h_err s = Some ([], EPanic) /\ h_rt s = Running
+  /\ h_cur s = 2 /\ length (h_qb s) = 3 /\ length (h_qp s) = 1.
+Proof. cbv zeta. split; [eexists; reflexivity|]. vm_compute. repeat split. Qed.
